@@ -48,6 +48,14 @@ def make_program(name, orc_holder):
         P.statuses = [1, 2, 0]
         P.rate = lambda G, node, st: TAU * nI(G, node, st, 2) if st[node] == 1 else (GAMMA if st[node] == 2 else 0.0)
         P.choose = lambda G, node, st: 2 if st[node] == 1 else 0
+    elif name in ("decay", "tinydecay"):
+        # independent decays A -> B with heterogeneous node rates (no interaction): after the unique fastest node
+        # has fired, selection among the rest must still be proportional; "tinydecay": rates of order 1e-8
+        P.statuses = ["A", "B"]
+        base = [1.1, 0.3, 0.7, 0.3] if name == "decay" else [3e-8, 2e-8, 1e-8, 1e-8]
+        P.rate = lambda G, node, st: base[node % 4] if st[node] == "A" else 0.0
+        P.choose = lambda G, node, st: "B"
+        P.influence = lambda G, node, st: []
     elif name == "SIS":
         P.statuses = ["S", "I"]
         P.rate = lambda G, node, st: TAU * nI(G, node, st) if st[node] == "S" else GAMMA
@@ -238,6 +246,10 @@ def run_spec(spec, props=("C15",)):
                 else:
                     succ[lf[1]] = succ.get(lf[1], 0.0) + p
                     A.trans.add((st, lf[1]))
+                    if lf[0] == "END" and p > 0 and t_after < tmax:
+                        R2, RT2 = rates_for(rep, lf[1])
+                        if RT2 is not None and RT2 > TOL:
+                            A.add(V("C15", fn, cls, "ends_early", "after %r -> %r the run stops although the rates still sum to %r" % (st, lf[1], RT2), sg.prefix))
             if should_end:
                 for nxt in succ:
                     A.add(V("C15", fn, cls, "event_after_end", "state %r: event to %r although all rates are zero / tmax passed" % (st, nxt), sg.prefix))
@@ -317,7 +329,7 @@ def run_spec(spec, props=("C15",)):
     return A.result(props)
 
 
-PROGRAMS = ["SIR", "SIR_set", "SIR_iter", "SIR_int0", "SIS", "thr1", "thr2", "global", "twoway", "lazy"]
+PROGRAMS = ["SIR", "SIR_set", "SIR_iter", "SIR_int0", "decay", "tinydecay", "SIS", "thr1", "thr2", "global", "twoway", "lazy"]
 
 
 def specs(tier):
@@ -326,9 +338,9 @@ def specs(tier):
     gs = [(n, es) for n, es in gr.small_graphs(3)]
     gs += [gr.NAMED[k] for k in (("C4", "S4", "P4", "K4") if thorough else ("C4", "S4"))]
     for pname in PROGRAMS:
-        alphabet = {"SIR": "SIR", "SIR_set": "SIR", "SIR_iter": "SIR", "SIR_int0": [1, 2, 0], "SIS": "SI", "thr1": "SI", "thr2": "SI",
+        alphabet = {"SIR": "SIR", "SIR_set": "SIR", "SIR_iter": "SIR", "SIR_int0": [1, 2, 0], "decay": "AB", "tinydecay": "AB", "SIS": "SI", "thr1": "SI", "thr2": "SI",
                     "global": "SIR", "twoway": "SIR", "lazy": "AB"}[pname]
-        term = pname in ("SIR", "SIR_set", "SIR_iter", "SIR_int0", "global")
+        term = pname in ("SIR", "SIR_set", "SIR_iter", "SIR_int0", "global", "decay", "tinydecay")
         for (n, es) in gs:
             if pname in ("SIR_set", "SIR_iter", "SIR_int0") and n == 4:
                 continue
